@@ -1,1 +1,94 @@
-pub fn hello(){}
+//! vcore: shared pieces of the conformance harness.
+//!
+//! Nothing in this crate is an oracle.  It (a) projects real arrays into the
+//! logical / physical models the TLA+ specifications talk about, (b) generates
+//! and re-lays-out input arrays, (c) writes ndjson traces for TLC.
+
+pub mod dump;
+pub mod mk;
+pub mod mutate;
+pub mod rng;
+pub mod tok;
+pub mod trace;
+
+pub use rng::Rng;
+pub use serde_json::{json, Value};
+pub use trace::Trace;
+
+use std::panic::{catch_unwind, AssertUnwindSafe};
+
+/// Run `f`, turning a panic into `Err(message)`: a panic in code under test is data.
+pub fn guarded<T>(f: impl FnOnce() -> T) -> Result<T, String> {
+    GUARD.with(|g| g.set(g.get() + 1));
+    let r = catch_unwind(AssertUnwindSafe(f));
+    GUARD.with(|g| g.set(g.get() - 1));
+    match r {
+        Ok(v) => Ok(v),
+        Err(e) => Err(if let Some(s) = e.downcast_ref::<&str>() {
+            s.to_string()
+        } else if let Some(s) = e.downcast_ref::<String>() {
+            s.clone()
+        } else {
+            "panic".to_string()
+        }),
+    }
+}
+
+/// Silence the default panic hook (panics are captured with `guarded`).
+pub fn quiet_panics() {
+    let default = std::panic::take_hook();
+    std::panic::set_hook(Box::new(move |info| {
+        if GUARD.with(|g| g.get()) == 0 {
+            default(info);
+        }
+    }));
+}
+
+thread_local! {
+    static GUARD: std::cell::Cell<u32> = const { std::cell::Cell::new(0) };
+}
+
+/// Common command line: `<bin> <driver> --tier T --seed S --out DIR [--replay FILE]`
+pub struct Args {
+    pub driver: String,
+    pub tier: String,
+    pub seed: u64,
+    pub out: String,
+    pub replay: Option<String>,
+    pub cases: Option<String>,
+    pub extra: Vec<String>,
+}
+
+impl Args {
+    pub fn parse() -> Args {
+        let mut a = Args {
+            driver: String::new(),
+            tier: "quick".into(),
+            seed: 1,
+            out: ".".into(),
+            replay: None,
+            cases: None,
+            extra: vec![],
+        };
+        let mut it = std::env::args().skip(1);
+        while let Some(x) = it.next() {
+            match x.as_str() {
+                "--tier" => a.tier = it.next().unwrap(),
+                "--seed" => a.seed = it.next().unwrap().parse().unwrap_or(1),
+                "--out" => a.out = it.next().unwrap(),
+                "--replay" => a.replay = it.next(),
+                "--cases" => a.cases = it.next(),
+                _ if a.driver.is_empty() => a.driver = x,
+                _ => a.extra.push(x),
+            }
+        }
+        a
+    }
+    pub fn thorough(&self) -> bool {
+        self.tier == "thorough"
+    }
+    /// `q` in the quick tier, `t` in the thorough tier
+    pub fn scale(&self, q: usize, t: usize) -> usize {
+        if self.thorough() { t } else { q }
+    }
+}
